@@ -1,3 +1,4 @@
+import MLPE.Proofs.Safe
 import MLPE.Proofs.EngCore
 
 /-!
@@ -60,5 +61,23 @@ theorem C19_no_marker_or_failure_saved (c : Ctx) (s : St) (obs : List Obs) (d : 
 /-- the value the consumers read is the value that was saved: both are `v` -/
 theorem C19_saved_value_is_stored_value (s : St) (n : Node) (v : Val) : (storeIf s true n v).getHid n = v := by
   simp [storeIf, St.setRes, St.getHid]
+
+/-! ### Pipelines with switches: what is saved, under every schedule -/
+
+/-- **C19 (switch pipelines)**: every value handed to the artifact store is the final value of its node — the value
+the dataflow semantics assigns to it, which is also the value every consumer receives (`C03_switch_body_arguments`) —
+and is neither a `Recurrent` marker nor an exception object -/
+theorem C19_switch_saved_value_is_final (P : Program) (val : Node → Option Val) (hsw : SwP P)
+    (hsol : SolutionSw P val) (s : St) (log : List Obs) (h : Exec P s log) (n : Node) (v : Val)
+    (hm : Obs.save n v ∈ log) : val n = some v ∧ v.isRecur = false ∧ v.isExc = false :=
+  (safe_exec hsw hsol h).2 _ hm
+
+/-- two saves of one node — in one run or in two — carry the same value -/
+theorem C19_switch_saves_agree (P : Program) (val : Node → Option Val) (hsw : SwP P) (hsol : SolutionSw P val)
+    (s₁ s₂ : St) (log₁ log₂ : List Obs) (h₁ : Exec P s₁ log₁) (h₂ : Exec P s₂ log₂) (n : Node) (v₁ v₂ : Val)
+    (hm₁ : Obs.save n v₁ ∈ log₁) (hm₂ : Obs.save n v₂ ∈ log₂) : v₁ = v₂ := by
+  have a := (C19_switch_saved_value_is_final P val hsw hsol s₁ log₁ h₁ n v₁ hm₁).1
+  have b := (C19_switch_saved_value_is_final P val hsw hsol s₂ log₂ h₂ n v₂ hm₂).1
+  rw [a] at b; exact Option.some.inj b
 
 end MLPE.Eng
